@@ -556,4 +556,198 @@ theorem genResolveGo_share_valid (G : Dkg.Grp) (st : GenSt) (idx : List Nat) (hn
           · exact e
         exact ih hnd' _ _ _ _ (by rw [hl1, hl2, hlen]) h' hjr (by rw [hl1]; exact hjlen)
 
+/-! ### the extraction phase, step 4(b) -/
+
+theorem readElems_good (G : Dkg.Grp) (tag : Tag) (j : Nat) (f : Nat) (I : Inbox) (acc : List Int)
+    (c : Bool) (I' : Inbox) (row : List Int)
+    (h : readElems G tag j f I acc c = (false, I', row)) :
+    c = false ∧ ∃ r, row = acc ++ r ∧ r.length = f ∧ ∀ x ∈ r, Dkg.checkElement G x = true := by
+  induction f generalizing I acc c with
+  | zero =>
+    simp only [readElems, Prod.mk.injEq] at h
+    obtain ⟨rfl, _, rfl⟩ := h
+    exact ⟨rfl, [], by simp, rfl, fun _ hx => by cases hx⟩
+  | succ f ih =>
+    unfold readElems at h
+    split at h
+    · simp only [Prod.mk.injEq] at h
+      exact absurd h.1 (by decide)
+    · rename_i v I1 _
+      split at h
+      · rename_i hv
+        obtain ⟨hc, r, hr, hl, hg⟩ := ih _ _ _ h
+        refine ⟨hc, v :: r, by simp [hr], by simp [hl], ?_⟩
+        intro x hx
+        rcases List.mem_cons.1 hx with rfl | hx
+        · exact hv
+        · exact hg x hx
+      · obtain ⟨hc, _⟩ := ih _ _ _ h
+        cases hc
+
+theorem getRow_set_self (A : List (List Int)) (j : Nat) (v : List Int) (hj : j < A.length) :
+    getRow (A.set j v) j = v := by
+  simp [getRow, List.getD_eq_getElem?_getD, hj]
+
+theorem getRow_set_ne (A : List (List Int)) (j k : Nat) (v : List Int) (hk : k ≠ j) :
+    getRow (A.set j v) k = getRow A k := by
+  simp [getRow, List.getD_eq_getElem?_getD, Ne.symm hk]
+
+theorem genReadA_step (G : Dkg.Grp) (st : GenSt) (k : Nat) (rest : List Nat) (I : Inbox)
+    (A : List (List Int)) (cm : List Nat) (R : Inbox × List (List Int) × List Nat)
+    (h : genReadA G st (k :: rest) I A cm = .ok R) :
+    ((k = st.i ∨ st.qual.contains k = false) ∧ genReadA G st rest I A cm = .ok R) ∨
+    (k ≠ st.i ∧ st.qual.contains k = true ∧ ∃ c I1 row rhs,
+      readElems G none k (st.t + 1) I [] false = (c, I1, row) ∧
+      commitProd G.p (st.i + 1) (padRow st.t row) = .ok rhs ∧
+      genReadA G st rest I1 (A.set k (padRow st.t row))
+        (if (c || (getI st.gs k != rhs)) = true then cm ++ [k] else cm) = .ok R) := by
+  simp only [genReadA] at h
+  split at h
+  · rename_i hc
+    left
+    refine ⟨?_, h⟩
+    rcases hc with hc | hc
+    · exact Or.inl hc
+    · exact Or.inr (by simpa using hc)
+  · rename_i hc
+    right
+    have hc1 : k ≠ st.i := fun e => hc (Or.inl e)
+    have hc2 : st.qual.contains k = true := by
+      cases hq : st.qual.contains k with
+      | true => rfl
+      | false => exact absurd (Or.inr (by rw [hq]; rfl)) hc
+    refine ⟨hc1, hc2, ?_⟩
+    generalize hre : readElems G none k (st.t + 1) I [] false = re at h
+    obtain ⟨c, I1, row⟩ := re
+    simp only [bind, Except.bind] at h
+    cases hcp : commitProd G.p (st.i + 1) (padRow st.t row) with
+    | error e => rw [hcp] at h; cases h
+    | ok rhs =>
+      rw [hcp] at h
+      exact ⟨c, I1, row, rhs, rfl, hcp, h⟩
+
+theorem genReadA_mono (G : Dkg.Grp) (st : GenSt) (idx : List Nat) (I : Inbox)
+    (A : List (List Int)) (cm : List Nat) (I' : Inbox) (A' : List (List Int)) (cm' : List Nat)
+    (h : genReadA G st idx I A cm = .ok (I', A', cm')) : ∀ k ∈ cm, k ∈ cm' := by
+  induction idx generalizing I A cm with
+  | nil =>
+    simp only [genReadA, Except.ok.injEq, Prod.mk.injEq] at h
+    obtain ⟨_, _, rfl⟩ := h
+    exact fun _ hx => hx
+  | cons k rest ih =>
+    rcases genReadA_step G st k rest I A cm _ h with ⟨_, h'⟩ | ⟨_, _, c, I1, row, rhs, _, _, h'⟩
+    · exact ih _ _ _ h'
+    · intro x hx
+      refine ih _ _ _ h' x ?_
+      split
+      · exact List.mem_append_left _ hx
+      · exact hx
+
+theorem genReadA_other (G : Dkg.Grp) (st : GenSt) (idx : List Nat) (I : Inbox)
+    (A : List (List Int)) (cm : List Nat) (I' : Inbox) (A' : List (List Int)) (cm' : List Nat)
+    (h : genReadA G st idx I A cm = .ok (I', A', cm')) (j : Nat) (hj : j ∉ idx) :
+    getRow A' j = getRow A j := by
+  induction idx generalizing I A cm with
+  | nil =>
+    simp only [genReadA, Except.ok.injEq, Prod.mk.injEq] at h
+    obtain ⟨_, rfl, _⟩ := h
+    rfl
+  | cons k rest ih =>
+    have hjk : j ≠ k := fun e => hj (e ▸ List.mem_cons_self)
+    have hjr : j ∉ rest := fun e => hj (List.mem_cons_of_mem _ e)
+    rcases genReadA_step G st k rest I A cm _ h with ⟨_, h'⟩ | ⟨_, _, c, I1, row, rhs, _, _, h'⟩
+    · exact ih _ _ _ h' hjr
+    · rw [ih _ _ _ h' hjr, getRow_set_ne _ _ _ _ hjk]
+
+/-- step 4(b): a dealer `j ∈ QUAL` the party does NOT complain about published `t+1` group elements
+    that satisfy equation (5) for the (refreshed) cache `g^{s_ji}` the party holds -/
+theorem genReadA_sound (G : Dkg.Grp) (st : GenSt) (idx : List Nat) (hnd : idx.Nodup) (I : Inbox)
+    (A : List (List Int)) (cm : List Nat) (I' : Inbox) (A' : List (List Int)) (cm' : List Nat)
+    (h : genReadA G st idx I A cm = .ok (I', A', cm')) :
+    (∀ k ∈ cm, k ∈ cm') ∧
+    ∀ j ∈ idx, j ≠ st.i → st.qual.contains j = true → j < A.length → j ∉ cm' →
+      (∀ c ∈ getRow A' j, Dkg.checkElement G c = true) ∧
+      commitProd G.p (st.i + 1) (getRow A' j) = .ok (getI st.gs j) := by
+  refine ⟨genReadA_mono G st idx I A cm I' A' cm' h, ?_⟩
+  induction idx generalizing I A cm with
+  | nil => intro j hj; cases hj
+  | cons k rest ih =>
+    have hnd' : rest.Nodup := (List.nodup_cons.1 hnd).2
+    have hkr : k ∉ rest := (List.nodup_cons.1 hnd).1
+    intro j hjidx hji hq hjlen hjc
+    rcases genReadA_step G st k rest I A cm _ h with
+      ⟨hor, h'⟩ | ⟨_, _, c, I1, row, rhs, hre, hcp, h'⟩
+    · have hjk : j ≠ k := by
+        intro e
+        subst e
+        rcases hor with e | e
+        · exact hji e
+        · rw [e] at hq; cases hq
+      have hjr : j ∈ rest := by
+        rcases List.mem_cons.1 hjidx with e | e
+        · exact absurd e hjk
+        · exact e
+      exact ih hnd' _ _ _ h' j hjr hji hq hjlen hjc
+    · by_cases hjk : j = k
+      · subst hjk
+        have hcb : (c || (getI st.gs j != rhs)) = false := by
+          cases hb : (c || (getI st.gs j != rhs)) with
+          | false => rfl
+          | true =>
+            rw [hb] at h'
+            exact absurd (genReadA_mono G st _ _ _ _ _ _ _ h' j (by simp)) hjc
+        have hc : c = false := by
+          cases c with
+          | false => rfl
+          | true => simp at hcb
+        have hgs : getI st.gs j = rhs := by
+          subst hc
+          simpa using hcb
+        subst hc
+        obtain ⟨_, r, hr, hl, hg⟩ := readElems_good G none j _ _ _ _ _ _ hre
+        simp only [List.nil_append] at hr
+        subst hr
+        have hpad : padRow st.t row = row := by
+          simp [padRow, zeros, hl]
+        rw [hpad] at hcp h'
+        rw [genReadA_other G st _ _ _ _ _ _ _ h' j hkr, getRow_set_self _ _ _ hjlen]
+        exact ⟨hg, hgs ▸ hcp⟩
+      · have hjr : j ∈ rest := by
+          rcases List.mem_cons.1 hjidx with e | e
+          · exact absurd e hjk
+          · exact e
+        exact ih hnd' _ _ _ h' j hjr hji hq (by simpa using hjlen) hjc
+
+/-- after step 1(d) the cache holds `g^{s_ji}` for the shares the party now holds -/
+theorem genResolve_gs (G : Dkg.Grp) (st : GenSt) (I : Inbox) (st' : GenSt) (I' : Inbox) (ops : List Op)
+    (status : Status) (h : genResolve G st I = .ok (st', I', ops, status)) :
+    gaList G st'.s = .ok st'.gs := by
+  simp only [genResolve, bind, Except.bind] at h
+  cases hg : genResolveGo G st (List.range st.n) I st.s st.sp st.compl with
+  | error e => rw [hg] at h; cases h
+  | ok R =>
+    obtain ⟨I1, s, sp, cm⟩ := R
+    rw [hg] at h
+    simp only at h
+    cases hgs : gaList G s with
+    | error e => rw [hgs] at h; cases h
+    | ok gs =>
+    rw [hgs] at h
+    simp only at h
+    split at h
+    · simp only [pure, Except.pure, Except.ok.injEq, Prod.mk.injEq] at h
+      obtain ⟨rfl, _⟩ := h
+      exact hgs
+    · split at h
+      · simp only [pure, Except.pure, Except.ok.injEq, Prod.mk.injEq] at h
+        obtain ⟨rfl, _⟩ := h
+        exact hgs
+      · split at h
+        · simp only [pure, Except.pure, Except.ok.injEq, Prod.mk.injEq] at h
+          obtain ⟨rfl, _⟩ := h
+          exact hgs
+        · simp only [pure, Except.pure, Except.ok.injEq, Prod.mk.injEq] at h
+          obtain ⟨rfl, _⟩ := h
+          exact hgs
+
 end Tmcg.DkgP
